@@ -209,11 +209,12 @@ impl Vm {
 
     pub fn global(&mut self, module_name: &str, var_name: &str) -> Option<Value> {
         let var_name = self.new_gc_obj_string(var_name);
-        self.module(module_name)
-            .borrow()
-            .attributes
-            .get(&var_name)
-            .copied()
+        // Looking something up must not bring a module into being (an empty module that was never
+        // loaded would make a later import of that name fail as a circular dependency).
+        let module_name = self.new_gc_obj_string(module_name);
+        let module = self.modules.get(&module_name)?.as_gc();
+        let value = module.borrow().attributes.get(&var_name).copied();
+        value
     }
 
     pub fn set_global(&mut self, module_name: &str, var_name: &str, value: Value) {
